@@ -51,13 +51,13 @@ fn limit_of(cfg: &IterCfg) -> Option<u64> {
 /// Judged only when the recovery did stop at the element under test (its header may be one the scan skips).
 fn exec_late_limit(c: &Case, m: u64, st: &mut Stats) -> Result<ExecOk, Fail> {
     let n = c.rc.input.len();
-    let cap = c.rc.cfg.capacity.unwrap_or(65536).max(16) as u64;
-    let legit = if c.declared <= m { c.declared } else { 0 };
-    let allowed = 8 * legit.max(cap).max(16) + 4096;
     crate::spec::install(&c.rc.spec);
     alloc::arm();
     let tr = run_reader(&c.rc.spec, &ReaderSetup { input: c.rc.input.clone(), virtual_tail: c.virtual_tail, cfg: &c.rc.cfg, script: &c.rc.script, driver: &c.rc.driver, max_steps: 4 * n + 256, keep_read_log: false });
     let usage = alloc::disarm();
+    let cap = (c.rc.cfg.capacity.unwrap_or(65536).max(16) as u64).max(tr.rstats.first_buf_offered as u64);
+    let legit = if c.declared <= m { c.declared } else { 0 };
+    let allowed = 8 * legit.max(cap).max(16) + 4096;
     st.add("api_calls", tr.api_calls as u64);
     st.add("read_calls", tr.read_calls as u64);
     st.inc("late_limit_runs");
@@ -311,16 +311,17 @@ impl Check for C17 {
             st.inc("out_of_scope");
             return Ok(ExecOk { nontrivial: false });
         };
-        let cap = c.rc.cfg.capacity.unwrap_or(65536).max(16) as u64;
-        // what may legitimately be held: the largest in-limit element, the capacity, one header
-        let legit = c.legit.min(m);
-        let allowed = 8 * legit.max(cap).max(16) + 4096;
         let n = c.rc.input.len();
         // the specification tables are installed before arming (interning leaks by design)
         crate::spec::install(&c.rc.spec);
         alloc::arm();
         let tr = run_reader(&c.rc.spec, &ReaderSetup { input: c.rc.input.clone(), virtual_tail: c.virtual_tail, cfg: &c.rc.cfg, script: &c.rc.script, driver: &c.rc.driver, max_steps: 4 * n + 256, keep_read_log: false });
         let usage = alloc::disarm();
+        // the initial capacity is the configured one, or the library's default as the source saw it in the first read
+        let cap = (c.rc.cfg.capacity.unwrap_or(65536).max(16) as u64).max(tr.rstats.first_buf_offered as u64);
+        // what may legitimately be held: the largest in-limit element, the capacity, one header
+        let legit = c.legit.min(m);
+        let allowed = 8 * legit.max(cap).max(16) + 4096;
         st.add("api_calls", tr.api_calls as u64);
         st.add("read_calls", tr.read_calls as u64);
         st.max("max_peak_heap_growth", usage.peak as u64);
